@@ -41,6 +41,8 @@ type Op struct {
 	Args []gen.Lit `json:"args,omitempty"`
 	Reps int       `json:"reps,omitempty"` // executions of a prepared statement
 	Note string    `json:"note,omitempty"` // statement class
+	// PrepBg: a prepared statement is prepared with context.Background() and executed with the case's context
+	PrepBg bool `json:"prep_bg,omitempty"`
 }
 
 type Case struct {
@@ -153,7 +155,11 @@ func runOp(cx context.Context, x execer, op Op, names []string) (r opResult) {
 		}
 		readRows(rows, &r)
 	case "pexec", "pquery":
-		st, err := x.PrepareContext(cx, q)
+		pcx := cx
+		if op.PrepBg {
+			pcx = context.Background() // prepared at start-up, outside any transaction, executed later inside one
+		}
+		st, err := x.PrepareContext(pcx, q)
 		if err != nil {
 			r.Err = "prepare: " + err.Error()
 			return
@@ -667,7 +673,11 @@ func drawOps(rt *rapid.T, c *Case) {
 					reps = 1
 				}
 			}
-			c.Ops = append(c.Ops, Op{Kind: kind, SQL: st.SQL, Args: st.Args, Reps: reps, Note: st.Kind})
+			op := Op{Kind: kind, SQL: st.SQL, Args: st.Args, Reps: reps, Note: st.Kind}
+			if strings.HasPrefix(kind, "p") && rapid.IntRange(0, 2).Draw(rt, "prepBg") == 0 {
+				op.PrepBg = true
+			}
+			c.Ops = append(c.Ops, op)
 		}
 	}
 	if inTx && rapid.Bool().Draw(rt, "closeTx") {
